@@ -173,8 +173,8 @@ func (f *fakeStream) ReadPacket() (*packet.TransferPacket, int, error) {
 	return nil, 0, io.EOF
 }
 func (f *fakeStream) WritePacket(*packet.TransferPacket, bool, int64) (int, error) { return 0, nil }
-func (f *fakeStream) ReadExact(int) ([]byte, error)                              { return nil, io.EOF }
-func (f *fakeStream) WriteExact([]byte) error                                    { return nil }
+func (f *fakeStream) ReadExact(int) ([]byte, error)                                { return nil, io.EOF }
+func (f *fakeStream) WriteExact([]byte) error                                      { return nil }
 func (f *fakeStream) Close() {
 	if f.closed.CompareAndSwap(false, true) && f.onClose != nil {
 		f.onClose(f.id)
@@ -534,7 +534,7 @@ func (r *mapRig) TrackTraffic(string, int64, int64) error               { return
 func (r *mapRig) GetUserQuota() (*models.UserQuota, error) {
 	return &models.UserQuota{MaxConnections: r.quota}, nil
 }
-func (r *mapRig) GetServerProtocol() string                              { return "tcp" }
+func (r *mapRig) GetServerProtocol() string                                 { return "tcp" }
 func (r *mapRig) SendTunnelCloseNotify(int64, string, string, string) error { return nil }
 
 func (r *mapRig) atHook() {
@@ -647,6 +647,7 @@ func (r *mapRig) endAll() {
 	}
 }
 func (r *mapRig) occ() int { return -1 }
+
 // snap: nothing a refused connection may leave behind is readable from outside the handler except
 // through its own connection object (request reports reads/writes on it) and the slot count (probe).
 func (r *mapRig) snap(p int) []string { return []string{} }
